@@ -111,6 +111,8 @@ def run_invocation(spec):
     script = spec.get("script", {})
     kernel = Kernel(rng, strategy, lambda t: script.get(t, {}), default_ident(root))
     kernel.install()
+    if spec.get("unrelated"):
+        kernel.add_unrelated(spec["unrelated"])
 
     fs_events = ("os.symlink", "os.mkdir", "os.rmdir", "os.remove", "os.rename", "shutil.rmtree", "shutil.copytree", "os.unlink")
     main_ident = threading.get_ident()
@@ -225,6 +227,8 @@ def run_invocation(spec):
 
     procs = []
     for p in kernel.procs.values():
+        if p.unrelated:
+            continue
         procs.append({"pid": p.pid, "task": p.task, "state": p.state, "status": p.status, "t_spawn": p.t_spawn,
                       "t_exit": p.t_exit, "t_reap": p.t_reap, "reaped_by": p.reaped_by, "signals": p.signals,
                       "slot": p.env.get("COND_SLOT"), "cond_env": {k: v for k, v in p.env.items() if k.startswith("COND_")},
